@@ -69,15 +69,15 @@ type FlowConfig struct {
 }
 
 type Flow struct {
-	P      *Program
-	cfg    FlowConfig
-	ids    map[nodeKey]int
-	keys   []nodeKey
-	out    [][]flowEdge
-	in     [][]flowEdge
-	heap   []bool // context-free cells
-	xform  map[[2]int]string // edge (from,to) -> description of a transforming hop
-	fnOf   []*ssa.Function
+	P     *Program
+	cfg   FlowConfig
+	ids   map[nodeKey]int
+	keys  []nodeKey
+	out   [][]flowEdge
+	in    [][]flowEdge
+	heap  []bool            // context-free cells
+	xform map[[2]int]string // edge (from,to) -> description of a transforming hop
+	fnOf  []*ssa.Function
 }
 
 func defaultCarries(t types.Type) bool {
@@ -160,10 +160,10 @@ func allocCaptured(a *ssa.Alloc) bool {
 	return res
 }
 
-func (f *Flow) val(v ssa.Value) int       { return f.id(nodeKey{kind: nValue, v: v}) }
-func (f *Flow) field(v *types.Var) int    { return f.id(nodeKey{kind: nField, f: v}) }
-func (f *Flow) global(g *ssa.Global) int  { return f.id(nodeKey{kind: nGlobal, v: g}) }
-func (f *Flow) mem(a *ssa.Alloc) int      { return f.id(nodeKey{kind: nMem, v: a}) }
+func (f *Flow) val(v ssa.Value) int      { return f.id(nodeKey{kind: nValue, v: v}) }
+func (f *Flow) field(v *types.Var) int   { return f.id(nodeKey{kind: nField, f: v}) }
+func (f *Flow) global(g *ssa.Global) int { return f.id(nodeKey{kind: nGlobal, v: g}) }
+func (f *Flow) mem(a *ssa.Alloc) int     { return f.id(nodeKey{kind: nMem, v: a}) }
 func (f *Flow) ret(fn *ssa.Function, i int) int {
 	return f.id(nodeKey{kind: nRet, fn: fn, idx: i})
 }
